@@ -155,7 +155,7 @@ Definition world_step (w : world) (e : event) : world :=
   | ERunEnter =>
     w <| w_fq := false |> <| w_in_run := true |> <| w_run_levels1 := (length (w_levels w) =? 1)%nat |>
       <| w_cause := false |> <| w_exiting := false |> <| w_quit_called := false |> <| w_frames := [] |> <| w_waiters := [] |> <| w_iters := [] |> <| w_runloop := true |>
-  | ERunReturn => (if w_fq w then w else w <| w_runloop := true |>) <| w_in_run := false |> <| w_exiting := false |>
+  | ERunReturn => w <| w_in_run := false |> <| w_exiting := false |>     (* run() re-arms the stop flag only when it is entered *)
   | EKill => w <| w_killed := true |>
   | EExt _ => w
   | EMark _ => w
